@@ -10,6 +10,7 @@
 //   ts.to   <tp|dur> <P> <R> <count>     BitSerializer::Detail::To(value, CBinTimestamp&)
 //   ts.from <tp|dur> <P> <R> <sec> <ns>  BitSerializer::Detail::To(CBinTimestamp, value&)
 //   rt.print <time_t> / rt.parse <hex>   CRawTime
+//   ts.wire <tp|dur> <P> <R> <count>      MsgPack archive: OK <hex bytes written> <count loaded back>
 //   tm.print <year> <mon> <mday> <hour> <min> <sec> / tm.parse <hex>      struct tm
 //   cast <Psrc> <Rsrc> <Pdst> <Rdst> <count>    Convert::Detail::SafeDurationCast (fixed catalogue, see cast_dispatch)
 //   sweep.print <tp|dur> <P> <R> <start> <n> <step>    answers of tp.print/dur.print for start + i*step folded into a hash
@@ -26,6 +27,9 @@
 #include "bitserializer/convert.h"
 #include "bitserializer/serialization_detail/errors_handling.h"
 #include "bitserializer/serialization_detail/bin_timestamp.h"
+#include "bitserializer/bit_serializer.h"
+#include "bitserializer/msgpack_archive.h"
+#include "bitserializer/types/std/chrono.h"
 
 using vh::U;
 namespace bs = BitSerializer;
@@ -138,6 +142,29 @@ template <class R, class Per> static std::string ts_from(bool isTp, int64_t sec,
 		bs::Detail::CBinTimestamp ts(sec, nsec);
 		if (isTp) { T t; bs::Detail::To(ts, t); return "OK " + fmt_count<R>(t.time_since_epoch().count()); }
 		D d; bs::Detail::To(ts, d); return "OK " + fmt_count<R>(d.count());
+	});
+}
+
+// ts.wire: the value saved as the root of a MsgPack archive (types/std/chrono.h: To(value, CBinTimestamp&), then
+// WriteValue(const CBinTimestamp&)), the bytes, and the value loaded back from them.  An overflow of the
+// conversion is reported by the archive as SerializationException(Overflow) = out_of_range of the conversion.
+template <class R, class Per> static std::string ts_wire(bool isTp, R c) {
+	using D = std::chrono::duration<R, Per>;
+	using T = std::chrono::time_point<std::chrono::system_clock, D>;
+	return guarded([&] {
+		std::string bytes;
+		if (isTp) {
+			T v{D(c)};
+			bs::SaveObject<bs::MsgPack::MsgPackArchive>(v, bytes);
+			T w{};
+			bs::LoadObject<bs::MsgPack::MsgPackArchive>(w, bytes);
+			return "OK " + vh::fmt_hex(bytes) + " " + fmt_count<R>(w.time_since_epoch().count());
+		}
+		D v(c);
+		bs::SaveObject<bs::MsgPack::MsgPackArchive>(v, bytes);
+		D w{};
+		bs::LoadObject<bs::MsgPack::MsgPackArchive>(w, bytes);
+		return "OK " + vh::fmt_hex(bytes) + " " + fmt_count<R>(w.count());
 	});
 }
 
@@ -257,6 +284,12 @@ static std::string run_line(const std::vector<std::string>& t) {
 	if (op == "dur.parse16") { auto s = units_to<std::u16string>(t.at(3)); return with_types(t.at(1), t.at(2), [&](auto tag) { using G = decltype(tag); return dur_parse<typename G::rep, typename G::period>(std::u16string_view(s)); }); }
 	if (op == "dur.parse32") { auto s = units_to<std::u32string>(t.at(3)); return with_types(t.at(1), t.at(2), [&](auto tag) { using G = decltype(tag); return dur_parse<typename G::rep, typename G::period>(std::u32string_view(s)); }); }
 	if (op == "ts.to") { bool isTp = t.at(1) == "tp"; return with_types(t.at(2), t.at(3), [&](auto tag) { using G = decltype(tag); return ts_to<typename G::rep, typename G::period>(isTp, parse_count<typename G::rep>(t.at(4))); }); }
+	if (op == "ts.wire") {
+		bool isTp = t.at(1) == "tp";
+		std::string a = with_types(t.at(2), t.at(3), [&](auto tag) { using G = decltype(tag); return ts_wire<typename G::rep, typename G::period>(isTp, parse_count<typename G::rep>(t.at(4))); });
+		if (a == "EXC:serialization:" + std::to_string((int)bs::SerializationErrorCode::Overflow)) return "EXC:out_of_range";
+		return a;
+	}
 	if (op == "ts.from") {
 		bool isTp = t.at(1) == "tp";
 		int64_t sec = parse_count<int64_t>(t.at(4)); int32_t nsec = parse_count<int32_t>(t.at(5));
